@@ -114,6 +114,10 @@ def mk_input(rng, max_rows=8, max_len=5, recipe=None, recipes=None, corner=None,
         for r in rows:
             if r is not None:
                 for (nm, ty) in schema:
+                    if r[nm] is None:
+                        # valid steps on a well-formed object never store a present row over a null list: a verdict
+                        history_failed = history_failed or f"after valid steps the object holds a present row whose list {nm!r} is null: {rows!r}"[:600]
+                        r[nm] = []
                     if ty == "timestamp":
                         r[nm] = [None if v is None else pd.Timestamp(v) for v in r[nm]]
     inp = {"schema": schema, "rows": rows, "recipe": recipe, "ca": ca, "built": built}
